@@ -218,7 +218,8 @@ protected:
 		}
 
 		using GetEvent = typename SelectGetEvent<Policies_, EventType_, HasFunctionGetEvent<Policies_, T &&, Args...>::value>::Type;
-		const auto e = GetEvent::getEvent(std::forward<T>(first), args...);
+		// can't std::forward<T>(first) in GetEvent::getEvent because it is forwarded to the listeners below.
+		const auto e = GetEvent::getEvent(first, args...);
 		const CallbackList_ * callableList = doFindCallableList(e);
 		if(callableList) {
 			(*callableList)(std::forward<T>(first), std::forward<Args>(args)...);
